@@ -187,3 +187,25 @@ CHECKS["C08"] = {
               {"name": "c08w", "pkg": ".", "overlay": "root", "run": "^TestVerifWiringC08$", "shards": 2}],
     "expect_checks": ["c08.passthrough", "c08.wiring"],
 }
+
+CHECKS["C06"] = {
+    "level": "exploration",
+    "technique": "property-based testing (rapid under testing/synctest): 2..8 clients with pairwise different utls ClientHellos, HTTP/2 preambles and peer addresses (some equal on purpose) run a generated interleaving of connect / request (sequential keep-alive, multiplexed) / disconnect / reconnect-with-a-different-hello steps, in barrier mode (quiescence after every step, replayable) and free-running (one goroutine per client); every backend request is tagged and its three fingerprints and X-Forwarded-For are compared with references computed from that connection's own wire bytes",
+    "rule": "case = client set + step interleaving + mode. Non-trivial = at least two connections with overlapping lifetimes, at least one HTTP/2 and one HTTP/1.1 (or no-ALPN) connection; distinct by hash of the script.",
+    "level_text": "Generated histories with an exact per-connection oracle: a value taken from any other connection (past or concurrent, same or other peer address) differs from the expected one and is reported with the tag of the connection it belongs to.",
+    "level_note": _E2E_NOTE + " Free-running mode explores the interleavings the Go scheduler happens to produce; barrier mode explores orderings of whole steps.",
+    "assumptions": ["SNI host names of 253+ bytes (C01's known finding) are replaced by a short name in this check"],
+    "units": [{"name": "c06", "pkg": "c06", "run": "^Test", "shards": 8}],
+    "expect_checks": ["c06.attribution"],
+}
+
+CHECKS["C07"] = {
+    "level": "exploration",
+    "technique": "race-detector build (-race) of a rapid property under testing/synctest: one HTTP/2 connection, bursts of up to 30 streams opened back-to-back while distinguishable SETTINGS / WINDOW_UPDATE / PRIORITY frames keep arriving; handlers free-run through the real reverse proxy with no harness synchronisation between handler and frame writer; oracles: (1) any data race report whose stacks touch the captured metadata, (2) every recorded fingerprint equals the reference fingerprint of some frame-history prefix between the request's own HEADERS and the moment the client saw its response",
+    "rule": "case = operation list (settings, priority, window_update, burst of n streams with/without priority, wait). Non-trivial = at least two streams and at least one fingerprint-relevant frame written while streams are in flight; distinct by hash of the script.",
+    "level_text": "Sampled interleavings amplified by the race detector (it flags the unsynchronised pair whenever both accesses happen in one execution, not only when they collide) plus a value oracle against torn mixtures. Evidence, not proof: the harness does not own instruction-level interleavings.",
+    "level_note": _E2E_NOTE + " Data races that do not involve pkg/metadata (e.g. upstream x/net's hpack encoder being resized by the serve loop while the frame writer uses it) are listed in the evidence as observations and are not this property's violations.",
+    "assumptions": ["GOMAXPROCS is varied (1, 4, 16) across shards in the thorough tier"],
+    "units": [{"name": "c07", "pkg": "c07", "run": "^Test", "race": True, "race_filter": "pkg/metadata", "shards": 6}],
+    "expect_checks": ["c07.streams"],
+}
